@@ -925,7 +925,7 @@ def run(run):
         load_side()
     from .translators import anc_trace
     anc_trace.load_plugin(common.REPO)
-    ncases = 2400 if run.thorough else 220
+    ncases = 1500 if run.thorough else 220
     cases = [corpus_case(c) for c in load_corpus()]
     run.count("corpus", len(cases))
     while len(cases) < ncases:
